@@ -2,7 +2,7 @@
 From Coq Require Import String Ascii List Bool Arith.
 Import ListNotations.
 From Coq Require Import NArith.
-Require Import V.Lib.PyStr V.Fs.Model V.Fs.Proofs V.Fs.Codec V.Fs.Wide V.Fs.Create.
+Require Import V.Lib.PyStr V.Fs.Model V.Fs.Proofs V.Fs.Codec V.Fs.Wide V.Fs.Create V.Fs.Overlap.
 Open Scope string_scope.
 
 (* An update made of temp+rename transactions (each: create a temporary file, write it in any number
@@ -146,6 +146,51 @@ Theorem C14_creation_follows_the_protocol : forall ci cm d,
 Proof. exact creation_good. Qed.
 Print Assumptions C14_creation_follows_the_protocol.
 
+(* OVERLAPPING updates: two updates (xs, ys: e.g. two Status.update calls on the same output/status.txt from two
+   threads of one process - Status.update takes no lock) whose operations reach the file system in ANY
+   interleaving sch, each of them hit by any fault (or none), the process dying after any number n of
+   operations of the interleaving: PROVIDED every update writes temporary files of its own (no temporary path
+   of one is a temporary path of the other, none is a state file), every file that is not a temporary file holds
+   at every moment its previous text or the complete text of one of the transactions of the two updates. *)
+Theorem C14_overlap_atomic : forall xs ys : list txn, Forall good xs -> Forall good ys ->
+  (forall x y, In x xs -> In y ys -> tmp x <> tmp y) ->
+  (forall x y, In x (xs ++ ys) -> In y (xs ++ ys) -> tmp x <> dst y) ->
+  forall p, (forall x, In x (xs ++ ys) -> tmp x <> p) ->
+  forall (ba bb : bool) (fa fb : fault) (sch : list bool) (n : nat) (s : fs),
+    let s' := run (firstn n (interleave sch (exec xs ba fa) (exec ys bb fb))) s in
+    read p s' = read p s \/
+    exists c, read p s' = Some c /\ exists x b', In x (xs ++ ys) /\ dst x = p /\ c = concat_str (chunks x b').
+Proof. exact overlap_atomic. Qed.
+Print Assumptions C14_overlap_atomic.
+
+(* ... and when neither of the two overlapping updates is hit by a fault, whatever the interleaving, every state
+   file one of them targets ends with a complete NEW version (that of the update that renamed last). *)
+Theorem C14_overlap_complete : forall xs ys : list txn, Forall good xs -> Forall good ys ->
+  (forall x y, In x xs -> In y ys -> tmp x <> tmp y) ->
+  (forall x y, In x (xs ++ ys) -> In y (xs ++ ys) -> tmp x <> dst y) ->
+  forall x, In x (xs ++ ys) -> forall (sch : list bool) (s : fs),
+    exists c, read (dst x) (run (interleave sch (exec xs true NoFault) (exec ys true NoFault)) s) = Some c /\
+              exists z b', In z (xs ++ ys) /\ dst z = dst x /\ c = concat_str (chunks z b').
+Proof. exact overlap_complete. Qed.
+Print Assumptions C14_overlap_complete.
+
+(* the protocol of two overlapping real updates (compared with the recorded traces: the temporary files of the two
+   calls are named after the call that opened them first) meets these hypotheses as soon as the two temporary
+   names differ and are not the state file *)
+Theorem C14_overlap_follows_the_protocol : forall t u f da db ca cb, t <> u -> t <> f -> u <> f ->
+  t <> "status.txt" -> u <> "status.txt" ->
+  let ok xs ys := Forall good xs /\ Forall good ys /\ (forall x y, In x xs -> In y ys -> tmp x <> tmp y) /\
+                  (forall x y, In x (xs ++ ys) -> In y (xs ++ ys) -> tmp x <> dst y) in
+  ok (status_update_as t da) (status_update_as u db) /\ ok (file_update_as t f ca) (file_update_as u f cb).
+Proof.
+  intros t u f da db ca cb Htu Htf Huf Hts Hus ok. unfold ok.
+  split; (split; [repeat constructor; try reflexivity; assumption|
+          split; [repeat constructor; try reflexivity; assumption|
+          split; [intros x y [<-|[]] [<-|[]]; exact Htu|
+                  intros x y [<-|[<-|[]]] [<-|[<-|[]]]; cbn; assumption]]]).
+Qed.
+Print Assumptions C14_overlap_follows_the_protocol.
+
 (* non-vacuity: a dictionary with a nasty error description (outer blanks, line breaks, backslashes, NUL,
    NEL) satisfies the guard and round-trips; an I/O error in the middle of the second write of the next
    update leaves the previous status.txt; a history of faulted and completed attempts; a description with
@@ -154,6 +199,10 @@ Definition ex_d : list (string * string) :=
   [("stages", "['stage0', 'stage1']"); ("exit-status", "a = b \ c");
    (ED, String " " (String "a" (String nl (String bsl (String "n" (String (ascii_of_nat 133) (String "=" (String (ascii_of_nat 0) (String "b" (String nl ""))))))))))].
 Definition ex_d2 : list (string * string) := [("stages", "['stage0', 'stage1']"); ("exit-status", "Failed")].
+Definition ex_d3 : list (string * string) := [("stages", "['stage0', 'stage1']"); ("exit-status", "Succes")].
+Definition ex_sch : list bool := [true; false; false; false; false; false].
+Definition ex_overlap : list fsop :=
+  interleave ex_sch (exec (status_update_as "T1" ex_d3) true NoFault) (exec (status_update_as "U1" ex_d2) true NoFault).
 Definition ex_conf : list txn := create_conf ["components:"; " []"] ["conf:"; " c"].
 Definition ex_status : list txn := create_status (Some ex_d2).
 Definition ex_files : list string := ["flowir_instance.yaml"; "manifest.yaml"; "status.txt"].
@@ -175,7 +224,16 @@ Example C14_nonvacuous :
   aborts ex_conf (EIO 6 2) = true /\
   map (fun p => read p (run (exec2 true ex_conf ex_status (EIO 6 2)) [])) ex_files = [None; None; None] /\
   map (fun p => read p (run (exec2 false ex_conf ex_status (EIO 6 2)) [("manifest.yaml", "old")])) ex_files
-    = [Some "components: []"; Some "old"; None].
+    = [Some "components: []"; Some "old"; None] /\
+  (* two overlapping Status.update calls: the second runs completely between the open and the first write of the
+     first; the text of status.txt after each operation; and an I/O error in the second write of the first call *)
+  map shape ex_overlap = [Create "T1"; Create "U1"; Append "U1" "19"; Append "U1" "28"; Close "U1";
+                          Rename "U1" "status.txt"; Append "T1" "19"; Append "T1" "28"; Close "T1"; Rename "T1" "status.txt"] /\
+  states_after "status.txt" ex_overlap [("status.txt", "old")]
+    = [Some "old"; Some "old"; Some "old"; Some "old"; Some "old"; Some (status_print ex_d2); Some (status_print ex_d2);
+       Some (status_print ex_d2); Some (status_print ex_d2); Some (status_print ex_d3)] /\
+  read "status.txt" (run (interleave ex_sch (exec (status_update_as "T1" ex_d3) true (EIO 2 4)) (exec (status_update_as "U1" ex_d2) true NoFault))
+                         [("status.txt", "old")]) = Some (status_print ex_d2).
 Proof.
   assert (P1 : pairs_ok ex_d).
   { unfold pairs_ok, ex_d. split; [|split].
